@@ -129,6 +129,23 @@ Deliver(i) == /\ nd < MaxDeliver /\ i \in 1..Len(log)
               /\ UNCHANGED <<p, log, pub>>
               /\ Log([act |-> "Deliver", i |-> i, sit |-> DSit(i)])
 
+\* two notifications arrive on different receiver threads: report i has passed the pre-check (state, epoch) and waits
+\* for the MDIB lock while report j is received and applied completely; then i gets the lock.  Whatever i is (older,
+\* the same, newer than j), the version gate it meets under the lock decides - nothing may go backwards.
+DeliverRace(i, j) ==
+  /\ nd + 1 < MaxDeliver /\ i \in 1..Len(log) /\ j \in 1..Len(log) /\ i # j
+  /\ c.phase = "initialized" /\ log[i].ep = c.ep
+  /\ LET c1 == Receive(c, log[j])
+         \* (the gate under the lock refuses everything while the MDIB is invalid - j may have invalidated it)
+         c2 == IF c1.phase = "invalid" THEN c1 ELSE Handle(c1, log[i])
+     IN c' = [c2 EXCEPT !.clean = FALSE, !.exp = c.exp + 2, !.seen = c.seen \cup {i, j}]
+  /\ nd' = nd + 2
+  /\ UNCHANGED <<p, log, pub>>
+  /\ Log([act |-> "DeliverRace", i |-> i, j |-> j,
+          sit |-> {"Q:" \o log[i].kind \o "-waits-for-" \o log[j].kind \o ":"
+                     \o (IF log[j].ep # c.ep THEN "otherepoch" ELSE IF log[i].ver < log[j].ver THEN "older-waits"
+                         ELSE IF log[i].ver = log[j].ver THEN "same-version" ELSE "newer-waits")}])
+
 \* reload_all, split at the point where GetMdib is answered
 BeginLoad == /\ c.phase \in {"invalid", "initialized"} /\ nd < MaxDeliver
              /\ c' = [c EXCEPT !.phase = "initializing", !.buf = <<>>, !.snap = NoSnap, !.clean = FALSE, !.seen = {}, !.late = <<>>]
@@ -176,6 +193,7 @@ Next == \/ \E hs \in SUBSET Hs : CommitState(hs)
         \/ \E h \in Hs : CommitDescrUpdate(h) \/ CommitDelete(h) \/ (\E w \in BOOLEAN : CommitCreate(h, w))
         \/ (\E k \in {"seq", "inst"} : Restart(k)) \/ BeginLoad \/ Snapshot \/ EndLoad
         \/ \E i \in 1..MaxCommits : Deliver(i) \/ ArriveDuringReplay(i)
+        \/ \E i, j \in 1..MaxCommits : DeliverRace(i, j)
 
 Spec == Init /\ [][Next]_vars
 
